@@ -92,11 +92,15 @@ fn main() {
         }
         "srv-replay" => {
             // mh srv-replay <steps.json> [sockdir]
-            let steps: serde_json::Value = serde_json::from_str(&std::fs::read_to_string(&args[2]).unwrap()).unwrap();
             let dir = args.get(3).cloned().unwrap_or_else(|| "/verif/work/sock".to_string());
             let stdout = std::io::stdout();
             let mut w = std::io::BufWriter::new(stdout.lock());
-            mh_harness::srvgen::replay(&steps, &dir, &mut w);
+            if args[2].ends_with(".ndjson") {
+                mh_harness::srvgen::replay_many(&args[2], &dir, &mut w);
+            } else {
+                let steps: serde_json::Value = serde_json::from_str(&std::fs::read_to_string(&args[2]).unwrap()).unwrap();
+                mh_harness::srvgen::replay(&steps, &dir, &mut w);
+            }
             w.flush().unwrap();
         }
         "info" => {
